@@ -1341,19 +1341,24 @@ class Context:
                 _memo = {}
             if id(value) in _memo:
                 return _memo[id(value)]
-            if isinstance(value, JSArray):
-                result: Any = []
-                _memo[id(value)] = result
-                result.extend(self._to_python(elem, _memo) for elem in value._elements)
-            else:
-                result = {}
-                _memo[id(value)] = result
-                for k, v in value._properties.items():
-                    result[k] = self._to_python(v, _memo)
+            try:
+                if isinstance(value, JSArray):
+                    result: Any = []
+                    _memo[id(value)] = result
+                    result.extend(
+                        self._to_python(elem, _memo) for elem in value._elements
+                    )
+                else:
+                    result = {}
+                    _memo[id(value)] = result
+                    for k, v in value._properties.items():
+                        result[k] = self._to_python(v, _memo)
+            except RecursionError:
+                raise JSError("Value is nested too deeply to convert")
             return result
         return value
 
-    def _to_js(self, value: Any) -> JSValue:
+    def _to_js(self, value: Any, _memo: Optional[Dict[int, Any]] = None) -> JSValue:
         """Convert a Python value to JavaScript."""
         if value is None:
             return NULL
@@ -1368,16 +1373,26 @@ class Context:
             return value
         if value is UNDEFINED:
             return value
-        if isinstance(value, list):
-            arr = JSArray()
-            for elem in value:
-                arr.push(self._to_js(elem))
-            return arr
-        if isinstance(value, dict):
-            obj = JSObject()
-            for k, v in value.items():
-                obj.set(str(k), self._to_js(v))
-            return obj
+        if isinstance(value, (list, tuple, dict)):
+            # Shared and cyclic structures keep their shape
+            if _memo is None:
+                _memo = {}
+            if id(value) in _memo:
+                return _memo[id(value)]
+            try:
+                if isinstance(value, dict):
+                    obj = JSObject()
+                    _memo[id(value)] = obj
+                    for k, v in value.items():
+                        obj.set(str(k), self._to_js(v, _memo))
+                    return obj
+                arr = JSArray()
+                _memo[id(value)] = arr
+                for elem in value:
+                    arr.push(self._to_js(elem, _memo))
+                return arr
+            except RecursionError:
+                raise JSError("Value is nested too deeply to convert")
         # Python callables become JS functions
         if callable(value):
             return value
